@@ -40,7 +40,11 @@ TRUSTED = ["fixtures.Fixture setUp/cleanUp (fixtures 4.3.2) is modelled, not ver
            "the __setattr__/__delattr__ log of the patched instance and of the metaclass of its classes is the observation "
            "device for patch undo actions; vars() of each patched object (getattr for property / slot attributes) "
            "before/after is the attribute observation"]
-ASSUMPTIONS = ["the result object does not raise; addOnException handlers do not raise (theorems); sampled beyond "
+ASSUMPTIONS = ["configured RunTest factories: the Gallina input has no configuration; 300 (quick) / 8000 (thorough) cases run "
+               "on a test case with a factory of its own (run_tests_with / runTest= / "
+               "@run_test_with x subclasses, functions, partial, callable objects, factories of the API before last_resort) and are judged as the same program under "
+               "the default RunTest (C02_factory_irrelevant)",
+               "the result object does not raise; addOnException handlers do not raise (theorems); sampled beyond "
                "that: a handler raising while the exception of the test method or tearDown is processed",
                "patched attributes are changed only through patch(); patch targets are the 15 keys of Model.Run.universe; "
                "properties have setter and deleter; class-level targets are ordinary class attributes (patching a class "
@@ -62,7 +66,7 @@ def _num(v):
 def drive(case):
     # attrs: the namespaces of the patch targets before the test, key -> value (runprog: patch keys)
     attrs0 = [[a, None if v == 0 else v] for a, v in case["attrs"]]
-    rs = R.run_program(case["prog"], "FExtended", attrs0=attrs0, runs=2)
+    rs = R.run_program(case["prog"], "FExtended", attrs0=attrs0, runs=2, runner=case.get("runner"))
     return [{"log": [[e[0], e[1], _num(e[2])] if e[0] == "set" else e for e in o["log"]], "left": o["leftover"],
              "attrs": [[a, _num(v)] for a, v in o["attrs"]],
              "outs": [e[1] for e in o["trace"] if e[0] == "out"]} for o in rs]
@@ -241,6 +245,8 @@ def generate(rng, tier):
         p = R.rand_prog(rng, feats=FEATS if rng.random() < 0.8 else frozenset(["patch"]),
                         p_raise=rng.choice([0.3, 0.5, 0.8]))
         cases.append({"prog": p, "attrs": rand_attrs(rng)})
+    # the same programs on cases configured with a RunTest factory of their own (the Gallina input leaves it out)
+    cases += R.configured(cases, rng, 300 if tier == "quick" else 8000)
     return cases
 
 
@@ -296,11 +302,15 @@ def extra_checks(tier, rng):
              "run_with_patches_raising": s0[2]} for ok, s0 in zip(oks, samples)]
 
 
-def shrink(case):
+def _shrink(case):
     for p in R.shrink_prog(case["prog"]):
         yield {"prog": p, "attrs": case["attrs"]}
     for i in range(len(case["attrs"])):
         yield {"prog": case["prog"], "attrs": case["attrs"][:i] + case["attrs"][i + 1:]}
+
+
+def shrink(case):
+    return R.shrink_configured(case, _shrink(case))
 
 
 def distribution(cases):
@@ -309,4 +319,5 @@ def distribution(cases):
     for c in cases:
         k = len(c["attrs"])
         d["initial_attrs"][k] = d["initial_attrs"].get(k, 0) + 1
+    d["runtest_factory"] = R.runner_distribution(cases)
     return d
